@@ -218,8 +218,10 @@ func scenCorrupt(r *Run) {
 			s.L.Logf("inject corrupted %s (%d bytes) into %s as from %s", kind, len(d), to.addrStr, from)
 			s.Stats.Fault("corrupted:" + corruptClass(kind))
 			injected++
+			Mark("no-effect/crash-on-datagram-failing-the-check")
 			w.Net.Deliver(to.addrStr, from, d, "corrupt")
 			synctest.Wait()
+			Mark("")
 			after := w.snapAll()
 			sn1 := snmpMap(kcp.DefaultSnmp.Copy())
 			for name, a := range before {
